@@ -8,7 +8,7 @@ from .common import distinct_enums
 from ..sym import C, fmt, linearize as L
 from ..lin import Lin
 from ..bitdom import BV, Ptr, RecordSym
-from .regs import Regs, TYPE_SUFFIX, T, strip_cast
+from .regs import Regs, TYPE_SUFFIX, T, strip_cast, callback_guard
 
 VALUE_OFF = 8      # offset of RegisterValue.value (checked against the record layout below)
 
@@ -609,6 +609,7 @@ def rule_macros(ck, R):
 
 
 def run(ck):
+    ck.rule('C01.f', 'typed access to callback-backed areas: the area callback is called only after a test that it exists (a write-only area has no read callback, a read-only one no write callback)')
     ck.rule('C01.a', 'per RegisterType: rds_serdes[T] pair and rds_size[T] agree with the type the REG_* macros associate; bit summary (K8) of ser_T writes exactly the big/little-endian image of v.value.m(T), des_T is its bitwise inverse and sets type T  [proof for all values]')
     ck.rule('C01.b', 'rv_validate: type test dominates acceptance; per validator kind and type the accepted set is exactly min <= v / v <= max / both (inclusive, same union member), TRIVIAL always, FAIL only DURING_INIT, CALLBACK the callback verdict, unknown kind rejects')
     ck.rule('C01.c', 'float serialisers store, and deserialisers accept, exactly the IEEE classes {zero, normal}')
@@ -623,3 +624,5 @@ def run(ck):
     rule_c(ck, R, sd)
     rule_d(ck, R)
     rule_e(ck, R)
+    for fn_ in ('register_get', 'register_setx'):
+        callback_guard(R, 'C01.f', fn_)
